@@ -238,6 +238,12 @@ class SyncRunnerTemplate(BaseRunner, ABC):
         map_over_list = [map_over] if isinstance(map_over, str) else list(map_over)
         input_variations = list(generate_map_inputs(normalized_values, map_over_list, map_mode, clone))
         if not input_variations:
+            # Nothing to run and nothing to report, but the call has ended: processors
+            # are shut down exactly once per top-level call
+            if _parent_span_id is None:
+                dispatcher = self._create_dispatcher(event_processors)
+                if dispatcher.active:
+                    self._shutdown_dispatcher_sync(dispatcher)
             return []
 
         dispatcher = self._create_dispatcher(event_processors)
